@@ -342,22 +342,16 @@ impl LLFree<'_> {
             self.trees
                 .reserve_or_steal(i, class, 1 << order, self.policy)
         {
-            let class_len = self
-                .locals
-                .class_locals(target_class)
-                .expect("Invalid class");
-            // Target might have less locals or none
-            assert!(class_len > 0, "No locals for class {target_class:?}");
-            let local = local % class_len;
-
             // Perform lower alloc, if it fails undo reservation
             match self.lower.get(i.as_row(), order, None) {
                 Ok(frame) => {
                     // Swap and unreserve old tree
                     if reserved
+                        && let Some(class_len) = self.locals.class_locals(target_class)
+                        && class_len > 0
                         && let Some(Reservation { row, free, .. }) = self.locals.swap(
                             target_class,
-                            local,
+                            local % class_len,
                             frame.as_tree(),
                             free - (1 << order),
                         )
